@@ -4,7 +4,7 @@ from checks.resource_common import *
 
 def plan(tier):
     qs = []
-    for n, pairs, K in ([(2, 2, 24), (3, 1, 18)] if tier == 'quick' else [(2, 2, 24), (3, 1, 18), (3, 2, 34), (4, 1, 24)]):
+    for n, pairs, K in ([(2, 2, 24), (3, 1, 18)] if tier == 'quick' else [(2, 2, 24), (3, 1, 18), (3, 2, 34)]):
         progs = tuple(['R' * pairs] * n)
         qs.append(ResQuery('nopark_%dx%s' % (n, 'R' * pairs), progs, harness_defs=['C12_NOPARK=1'], cbmc_defs=['VF_LIVENESS=1'], K=K, timeout=1500,
                            desc={'threads': list(progs), 'claim': 'no reader ever parks (no condition-variable wait) in a writer-free history', 'symbolic': 'the schedule (%d thread choices)' % K}))
